@@ -1,10 +1,41 @@
 (* Executable entry points of the C08 model and oracle, in the integer-list protocol shared
    with harness/src/bin/c08.rs.  Encoders/decoders here are unverified glue.
    case:  op fa a fb b     op: 0 + | 1 - | 2 * | 3 // | 4 % | 5 ** | 6 unary minus | 7 comparison
-                           form: 0 literal | 1 i64 | 2 u64 | 3 i128 | 4 u128 | 5,6 float (not modelled) *)
+                           form: 0 literal | 1 i64 | 2 u64 | 3 i128 | 4 u128 | 5,6 float
+                           100*route + type: the integer supplied by another route (From at a narrow
+                           width, the serde serializer, a struct field, ...).  The model has no routes:
+                           by width_independent the outcome depends on the number only, so a routed
+                           operand is the same number in the value form of its type class. *)
 From Coq Require Import String.
 From MJ Require Import Common.Base.
 From MJ Require Import C08.Model C08.Spec C08.FloatModel.
+
+(* type 0 i8 1 i16 2 i32 3 i64 4 i128 5 isize 6 u8 7 u16 8 u32 9 u64 10 u128 11 usize -> (value form, min, max) *)
+Definition route_type (t : Z) : option (Z * Z * Z) :=
+  match t with
+  | 0 => Some (1, - 2 ^ 7, 2 ^ 7 - 1) | 1 => Some (1, - 2 ^ 15, 2 ^ 15 - 1) | 2 => Some (1, - 2 ^ 31, 2 ^ 31 - 1)
+  | 3 | 5 => Some (1, - 2 ^ 63, 2 ^ 63 - 1) | 4 => Some (3, - 2 ^ 127, 2 ^ 127 - 1)
+  | 6 => Some (2, 0, 2 ^ 8 - 1) | 7 => Some (2, 0, 2 ^ 16 - 1) | 8 => Some (2, 0, 2 ^ 32 - 1)
+  | 9 | 11 => Some (2, 0, 2 ^ 64 - 1) | 10 => Some (4, 0, 2 ^ 128 - 1)
+  | _ => None
+  end.
+(* None: the harness cannot build this operand *)
+Definition norm_form (f v : Z) : option Z :=
+  if f <? 100 then Some f
+  else if 800 <=? f then None
+  else match route_type (f mod 100) with
+       | Some (base, lo, hi) => if (lo <=? v) && (v <=? hi) then Some base else None
+       | None => None
+       end.
+Definition norm_case (inp : list Z) : option (list Z) :=
+  match inp with
+  | o :: fa :: a :: fb :: b :: rest =>
+      match norm_form fa a, (if o =? 6 then Some fb else norm_form fb b) with
+      | Some fa', Some fb' => Some (o :: fa' :: a :: fb' :: b :: rest)
+      | _, _ => None
+      end
+  | _ => None
+  end.
 
 Definition form_of (z : Z) : option form :=
   match z with 0 => Some FLit | 1 => Some FI64 | 2 => Some FU64 | 3 => Some FI128 | 4 => Some FU128 | _ => None end.
@@ -81,8 +112,8 @@ Definition run_with (bin : binop -> num -> num -> outcome num) (exactf : num -> 
   | _ => [9]
   end.
 (* the code as it is now, and as it was before the fix: commits (kept to show what they repaired) *)
-Definition run := run_with model_binop as_f64_exact.
-Definition run_before_fix := run_with model_binop_before_fix as_f64_exact_before_fix.
+Definition run (inp : list Z) : list Z := match norm_case inp with Some i => run_with model_binop as_f64_exact i | None => [9] end.
+Definition run_before_fix (inp : list Z) : list Z := match norm_case inp with Some i => run_with model_binop_before_fix as_f64_exact_before_fix i | None => [9] end.
 
 (* ---- the oracle: is [out] an acceptable answer for the case? ----
    [1] yes | [0; reason] no (2 crash, 4 wrong integer, 5 error where the exact result is due,
@@ -156,9 +187,9 @@ Definition judge_with (use_known : bool) (inp : list Z) : list Z :=
   | _ => [9]
   end.
 
-Definition judge := judge_with true.
+Definition judge (inp : list Z) : list Z := match norm_case inp with Some i => judge_with true i | None => [9] end.
 (* the same without the exclusions: says what is wrong inside a known-finding class *)
-Definition judge_raw := judge_with false.
+Definition judge_raw (inp : list Z) : list Z := match norm_case inp with Some i => judge_with false i | None => [9] end.
 
 Open Scope string_scope.
 Definition runners : list (string * (list Z -> list Z)) :=
